@@ -25,6 +25,9 @@ VALUE_MAPS = {
     "zero_high": [-9.0, -4.0, -2.5, -1.0, 0.0],
     "decades": [1e-3, 1e-1, 1.0, 50.0, 1e3],
     "integral": [-6.0, -2.0, 1.0, 3.0, 8.0],
+    # integer spellings where truncation toward zero lands ON the lower / the upper hard bound
+    "integral_pos": [1.0, 2.0, 4.0, 7.0, 12.0],
+    "integral_neg": [-12.0, -7.0, -4.0, -2.0, -1.0],
 }
 
 
@@ -185,6 +188,9 @@ SPELL_PROBLEMS = {
     "noplaus": {"x0": [1, 1], "lb": [-6, -6], "ub": [6, 6], "plb": None, "pub": None},
     "box1": {"x0": [2], "lb": [-10], "ub": [10], "plb": [-5], "pub": [5]},
     "log1": {"x0": [7], "lb": [1], "ub": [1000], "plb": [2], "pub": [500]},
+    "onbound2": {"x0": [0, 10], "lb": [0, -10], "ub": [10, 10], "plb": [2, -5], "pub": [8, 5]},
+    "onbound1": {"x0": [-10], "lb": [-10], "ub": [10], "plb": [-5], "pub": [5]},
+    "onboundlog2": {"x0": [1, 2000], "lb": [1, 1], "ub": [1000, 2000], "plb": [2, 2], "pub": [500, 400]},
     "box3": {"x0": [1, -2, 3], "lb": [-10, -10, -10], "ub": [10, 10, 10], "plb": [-5, -5, -5], "pub": [5, 5, 5]},
 }
 
@@ -255,6 +261,11 @@ def run(verdict, tier):
             if tier == "quick" and (si % 10) != hash(sp) % 10:
                 continue
             jobs.append((defn, st["verdict"], st["reason"], "integral" if sp == "int" else "mixed", sp))
+        # x0 given ON a finite hard bound: every integer-dtype spelling (the constructor must move it inside
+        # whatever the dtype of the caller's array)
+        if st["x0"] != NONE and st["x0"] in (st["lb"], st["ub"]) and 0 <= st["x0"] < K:
+            for mapname in ("integral", "integral_pos", "integral_neg"):
+                jobs.append((defn, st["verdict"], st["reason"], mapname, "int"))
     # ---- D = 2, 3: products of class representatives ----------------------------
     reps = {}
     for st in states:
